@@ -299,20 +299,24 @@ var verPairs = [][2]int{{3, 3}, {2, 2}, {23, 23}, {23, 3}, {2, 23}, {3, 23}, {23
 func TestProp_C07_Schedules(t *testing.T) {
 	si, sn := sim.Shard()
 	idx := 0
-	pairs := verPairs[:3]
+	pairs := verPairs
+	mixedFrom := 3 // in the quick tier the pairs with unequal policies run the plain start patterns only
 	if sim.Thorough() {
-		pairs = verPairs
+		mixedFrom = len(verPairs)
 	}
 	budget := 60
 	if sim.Thorough() {
 		budget = 4000
 	}
 	exhaustive := true
-	for _, vp := range pairs {
+	for vi, vp := range pairs {
 		for trig := 0; trig < 4; trig++ {
 			for who := 0; who < 3; who++ {
 				for pre := 0; pre < 5; pre++ {
 					for round := 0; round < 4; round++ {
+						if vi >= mixedFrom && (round > 0 || pre > 1) {
+							continue
+						}
 						reps := round
 						other := 0
 						if round == 3 {
@@ -362,7 +366,7 @@ func TestProp_C07_Schedules(t *testing.T) {
 		}
 	}
 	// started by a tag another implementation wrote: every form x either receiver x version policies x every schedule
-	for _, vp := range pairs {
+	for _, vp := range pairs[:mixedFrom] {
 		for form := 0; form < 8; form++ {
 			for who := 0; who < 2; who++ {
 				idx++
